@@ -177,17 +177,53 @@ class LibTable:
         r = assemble_content_type(*p).encode("utf-8", "surrogateescape")
         self.str_prims(ct); self.senc(assemble_content_type(*p)); return r
 
+    def url_prims(self, u):
+        """the CPython answers the model's URL transcription (Model/C41_Url.lean, C33 pySplit/urlParse) asks for u:
+        _check_bracketed_host, the IDNA round trip of the host name, is_valid_host"""
+        import urllib.parse
+        from mitmproxy.net import check as ncheck
+        try:
+            sp = urllib.parse.urlsplit(u); hn = sp.hostname; netloc = sp.netloc
+        except ValueError:
+            hn = None; netloc = u.partition("//")[2]
+        if "[" in netloc:
+            cand = netloc.partition("[")[2].partition("]")[0]
+            try: urllib.parse._check_bracketed_host(cand); ok = True
+            except ValueError: ok = False
+            self.put("vb", [tx(cand)], "01" if ok else "00")
+        if hn:
+            try:
+                hb = hn.encode("idna"); r = hb.decode("idna")
+                self.put("id", [tx(hn)], tx(r))
+                self.put("vh", [tx(hn)], "01" if ncheck.is_valid_host(hb) else "00")
+            except UnicodeError:
+                self.put("id", [tx(hn)], "!")
+
+    def auth_prims(self, h):
+        from mitmproxy.net import check as ncheck
+        from mitmproxy.net.http import url as murl
+        m = murl._authority_re.match(h)
+        if m:
+            host = m.group("host")
+            if host.startswith("[") and host.endswith("]"): host = host[1:-1]
+            self.put("va", [tx(host)], "01" if ncheck.is_valid_host(host) else "00")
+
     def url_hostport(self, u):
+        self.url_prims(u)
         try: r = http.Request.make("GET", u, "", [(b"Host", b"x")]).headers["Host"]
         except Exception: r = None
-        self.put("uh", [tx(u)], "!" if r is None else tx(r)); return r
+        return r
 
     def url_pretty(self, u, h):
+        self.url_prims(u)
+        if h: self.auth_prims(h)
         try:
-            rq = http.Request.make("GET", u, "", [] if h is None else [(b"Host", h.encode("utf-8", "surrogateescape"))])
+            rq = http.Request.make("GET", u, "", [])
+            if h is not None:       # set AFTER make: the url setter would rewrite an existing Host header
+                rq.headers = http.Headers([(b"Host", h.encode("utf-8", "surrogateescape"))])
             r = rq.pretty_url
         except Exception: r = ""
-        self.put("pu", [tx(u), hx(b"!") if h is None else hx(b"+" + h.encode("utf-8", "surrogatepass"))], tx(r)); return r
+        return r
 
     # ---- the model's data flow (mirror of Model/C41.lean, only to know which questions are asked)
     def hget(self, hdrs, k):
@@ -532,19 +568,26 @@ class Check(PropertyCheck):
                   "set of library primitives obeying the stated codec laws, the model of SaveHar.flow_entry/make_har -> json -> "
                   "har.request_to_flow - including the Message.get_content/get_text/set_content/set_text/decode and Headers "
                   "operations it calls AND transcriptions of strutils.is_mostly_bin, infer_content_encoding, parse_content_type/"
-                  "assemble_content_type and set_text's Content-Type rewrite - succeeds and returns the flows in order with the "
+                  "assemble_content_type, set_text's Content-Type rewrite AND (round 4, over the C33 model) url.parse / hostport / unparse / "
+                  "parse_authority / Request.url / pretty_url - succeeds and returns the flows in order with the "
                   "same method, URL, request fields apart from Content-Length, request body (POST/PUT/PATCH), status, response "
                   "fields, decoded response body and HTTP version, provided each flow passes a decidable guard with one conjunct "
                   "per recorded defect class (F-C41a..h); the unguarded statement is refuted in Lean on concrete flows "
                   "(import_export_preserves_counterexample*). infer_header_charset / infer_no_sniff / gRespText_of_roundtrip / "
                   "gReqText_of_roundtrip / mostlyBin_printable reduce the text conjuncts of the guard to input properties plus a "
-                  "codec round trip on the body. Tie per flow: exported HAR entry fields, the re-imported flow field by field "
+                  "codec round trip on the body; urlHostport_getter / urlPretty_getter / url_guards_of_getter turn the URL and Host "
+                  "conjuncts (F-C41c/d) into theorems for every flow whose URL is scheme://host[:port]/path with http/https, a lower-case "
+                  "ASCII host, port 1..65535, ASCII path and whose Host field is absent or exactly host[:port]; "
+                  "import_export_preserves_url_transcribed is the guarded round trip over that library. Tie per flow: exported HAR entry fields, the re-imported flow field by field "
                   "(exact header spelling/order, raw bodies, versions, import failure), the nine guard bits, and the model's own "
                   "predictions of is_mostly_bin / infer_content_encoding / the rewritten Content-Type must equal the real code.")
     level_note = ("partial by necessity: the code violates the full statement in 8 classes (known/C41.json), so the universal "
                   "theorem carries the guard guardButVer/gVer. Still parameters (Prim): utf-8/surrogateescape, str.upper/lower/"
                   "strip, UTF-8 validity, base64, content codings, charset codecs, the three re.search calls of "
-                  "infer_content_encoding, the URL library (url.parse / hostport / pretty_url over urllib) and JSON; assumed laws: "
+                  "infer_content_encoding, and of the URL side only _check_bracketed_host (ipaddress), the IDNA codec round trip of the "
+                  "host name and is_valid_host (urlsplit's scheme/netloc reading, hostname/port, the re-assembly of the rest, hostport, "
+                  "unparse, parse_authority and pretty_url are transcribed; the C33 facts GetterUrlOk.bracketedOk/idnaAscii/hostValid/"
+                  "restStable stay hypotheses of the URL theorems), and JSON; assumed laws: "
                   "senc(sdec b)=b, ASCII fixed, method upper/encode round trip, b64decode(b64encode b)=b, json.loads(json.dumps x)=x. "
                   "Their answers are passed per case from the real functions (driver reports lib-miss if it needs an answer it was "
                   "not given; ASCII cases of sdec/senc/lower/strip/utf8 are computed by the driver). "
@@ -580,10 +623,12 @@ class Check(PropertyCheck):
                     "mitmproxy.http:Request.make", "mitmproxy.http:Request._update_host_and_authority",
                     "mitmproxy.coretypes.multidict:_MultiDict.set_all", "mitmproxy.utils.strutils:is_mostly_bin",
                     "mitmproxy.net.http.headers:infer_content_encoding", "mitmproxy.net.http.headers:parse_content_type",
-                    "mitmproxy.net.http.headers:assemble_content_type"]
+                    "mitmproxy.net.http.headers:assemble_content_type", "mitmproxy.net.http.url:parse",
+                    "mitmproxy.net.http.url:hostport", "mitmproxy.net.http.url:unparse", "mitmproxy.net.http.url:parse_authority",
+                    "mitmproxy.http:Request.url", "mitmproxy.http:Request.pretty_url", "mitmproxy.http:Request.host_header"]
     trusted_base = ["CPython codecs (utf-8/surrogateescape, charset codecs), base64, json, zlib/brotli/zstd, urllib as the "
                     "library parameters of the model (answers taken from the real functions per case; laws assumed)",
-                    "mitmproxy.net.http.url (parse, hostport, pretty_url) treated as a library parameter"]
+                    "urllib.parse.urlsplit / ipaddress / idna / is_valid_host behind mitmproxy.net.http.url (transcribed via the C33 model, CPython parts parameters)"]
 
     def impl(self, case):
         flows = [build_flow(fc) for fc in case["flows"]]
